@@ -44,15 +44,16 @@ GRAMMARS = {
     "recs": {
         "rules": [
             ["start", ["seq", [["nt", "rec"], ["star", ["seq", [["lit", ";"], ["nt", "rec"]]]]]]],
-            ["rec", ["seq", [["nt", "name"], ["lit", "="], ["nt", "num"], ["opt", ["nt", "lst"]]]]],
+            ["rec", ["seq", [["nt", "name"], ["lit", "="], ["nt", "num"], ["opt", ["nt", "lst"]], ["nt", "pad"]]]],
+            ["pad", ["star", ["lit", "_"]]],
             ["name", ["plus", ["nt", "ch"]]],
             ["ch", ["alt", [["lit", "a"], ["lit", "b"], ["lit", "1"]]]],
             ["num", ["rep", ["nt", "d"], 1, 2]],
             ["d", DIG],
             ["lst", ["seq", [["lit", "["], ["nt", "num"], ["star", ["seq", [["lit", ","], ["nt", "num"]]]], ["lit", "]"]]]],
         ],
-        "syms": ["rec", "name", "ch", "num", "d", "lst", "start"],
-        "parents": {"rec": ["name", "num", "lst"], "name": ["ch"], "num": ["d"], "lst": ["num"], "start": ["rec"]},
+        "syms": ["rec", "name", "ch", "num", "d", "lst", "pad", "start"],
+        "parents": {"rec": ["name", "num", "lst", "pad"], "name": ["ch"], "num": ["d"], "lst": ["num"], "start": ["rec"]},
     },
     "expr": {
         "rules": [
@@ -70,7 +71,7 @@ GRAMMARS = {
 ATOM_TEMPLATES_1 = [  # one selector of tree kind
     "int($0) % 2 == 0", "int($0) > 4", "str($0) != '7'", "len(str($0)) >= 2", "str($0).startswith('a')",
     "$0.startswith('1')", "$0 == '5'", "str($0)[1] == 'b'", "10 // int($0) >= 2", "not (str($0) == 'a')",
-    "'1' in str($0)", "(lambda s: s == s[::-1])(str($0))", "$0.endswith('0')", "int($0) < 50",
+    "'1' in str($0)", "len(str($0)) >= 1", "str($0) != ''", "str($0)[::-1] != 'ba'", "$0.endswith('0')", "int($0) < 50",
 ]
 ATOM_TEMPLATES_2 = ["int($0) <= int($1)", "str($0) != str($1)", "len(str($0)) <= len(str($1)) + 1", "str($1) in str($0)"]
 CMP_TEMPLATES = [("int($0)", ">", "3"), ("str($0)", "==", "'a'"), ("$0", "!=", "'0'"), ("int($0) % 3", "<=", "1"),
@@ -97,7 +98,10 @@ def selectors(draw: Any, g: dict[str, Any], bound: list[str], depth: int = 2) ->
         cur = draw(st.sampled_from(syms))
         base = ["nt", cur]
     sel = base
-    for _ in range(draw(st.integers(0, depth))):
+    steps = draw(st.integers(0, depth))
+    if cur is None and depth > 0 and draw(st.integers(0, 9)) < 7:
+        steps = max(steps, 1)  # a bound symbol used as the base of a path
+    for _ in range(steps):
         op = draw(st.sampled_from(["dot", "dot", "ddot", "idx", "slice"]))
         if op in ("dot", "ddot"):
             kids = g["parents"].get(cur or "", None)
